@@ -390,8 +390,13 @@ theorem asciiProcess_geo (hrc : ComposeGeoSpec env.recompose) (k : Key) {c : Ctx
 theorem acSettle_geo {c : Ctx} (h : GeoInv c) : GeoInv (acSettle c) := by
   unfold acSettle
   split
-  · exact h.of_comp rfl
+  · exact (setOptionRaw_geo h "ascii_mode" false).of_comp rfl
   · exact h
+
+theorem recognizerProcess_geo (hrc : ComposeGeoSpec env.recompose) (k : Key) {c : Ctx} (h : GeoInv c) :
+    GeoInv (recognizerProcess env k c).1 := by
+  unfold recognizerProcess
+  (repeat' split) <;> first | exact h | exact pushInput_geo hrc h _
 
 /-! shape post-processor, key binder -/
 
@@ -469,6 +474,7 @@ theorem procRunInner_geo (hrc : ComposeGeoSpec env.recompose) (hnp : NoPrevMatch
   · exact punctProcess_geo hrc k h
   · exact h
   · exact asciiProcess_geo hrc k h
+  · exact recognizerProcess_geo hrc k h
 
 theorem chainInner_geo (hrc : ComposeGeoSpec env.recompose) (hnp : NoPrevMatch env) (k : Key) :
     ∀ (ps : List Proc) {c : Ctx}, GeoInv c → GeoInv (chainInner env k ps c).1
@@ -507,6 +513,7 @@ theorem procRun_geo (hrc : ComposeGeoSpec env.recompose) (hnp : NoPrevMatch env)
   · exact punctProcess_geo hrc k h
   · exact kbProcess_geo hrc _ (fun k c hc => processKeyNested_geo hrc hnp k hc) k h
   · exact asciiProcess_geo hrc k h
+  · exact recognizerProcess_geo hrc k h
 
 theorem chain_geo (hrc : ComposeGeoSpec env.recompose) (hnp : NoPrevMatch env) (k : Key) : ∀ (ps : List Proc) {c : Ctx}, GeoInv c →
     GeoInv (chain env k ps c).1
